@@ -6,6 +6,7 @@ import (
 	"sort"
 	"strings"
 	"testing"
+	"time"
 	"unicode/utf8"
 
 	"seehuhn.de/go/pdf"
@@ -1579,6 +1580,63 @@ func c13Lengths(rs []c13R) string {
 func TestVerifC13(t *testing.T) {
 	r := kit.Start(t, "C13")
 	defer r.Finish()
+
+	// history inside the process: a lookup of a name that is no predefined CMap
+	// (it fails), and then the package-level cache is used as before - the
+	// watchdog of two minutes only tells a blocked call from a slow one
+	r.Phase("after-unknown-predefined-name", r.N(2, 8), func(c *kit.Case) {
+		if _, err := cmap.Predefined(fmt.Sprintf("NoSuchCMap-%d-V", c.Index)); err == nil {
+			c.Violationf("predefined/unknown-name-accepted", "Predefined of an unknown name succeeded")
+		}
+		done := make(chan error, 1)
+		go func() {
+			_, err := cmap.Predefined("Identity-H")
+			f := &cmap.File{Name: "Verif-After-Unknown", CodeSpaceRange: charcode.Simple, CIDSingles: []cmap.Single{{Code: []byte{0x41}, Value: 5}}}
+			f.UpdateName()
+			done <- err
+		}()
+		select {
+		case err := <-done:
+			if err != nil {
+				c.Violationf("predefined/after-unknown-name", "Predefined(Identity-H) after a failed lookup: %v", err)
+			}
+			c.R.Count("predefined_lookups_after_a_failed_one", 1)
+		case <-time.After(2 * time.Minute):
+			c.Violationf("predefined/blocked-after-unknown-name", "after a lookup of an unknown predefined CMap name, Predefined(\"Identity-H\") / UpdateName did not return within two minutes")
+		}
+		c.Distinct(fmt.Sprint("unknown", c.Index))
+	})
+
+	// one very wide range, enumerated twice through the same sequence value: the
+	// second pass yields what the first one did
+	r.Phase("wide-range-enumerated-twice", r.N(4, 40), func(c *kit.Case) {
+		hi0 := 4 + c.Rng.Intn(8)
+		n := (hi0 + 1) * 65536 // (a range is a box: every byte between its bounds)
+		last := []byte{byte(hi0), 0xff, 0xff}
+		csr := charcode.CodeSpaceRange{{Low: []byte{0, 0, 0}, High: []byte{0xff, 0xff, 0xff}}}
+		f := &cmap.File{Name: "Verif-Wide", CodeSpaceRange: csr, CIDRanges: []cmap.Range{{First: []byte{0, 0, 0}, Last: last, Value: 1}}}
+		codec, err := charcode.NewCodec(csr)
+		if err != nil {
+			c.Violationf("wide-range/codec", "%v", err)
+			return
+		}
+		seq := f.All(codec)
+		var counts [3]int
+		for pass := range counts {
+			for range seq {
+				counts[pass]++
+			}
+		}
+		want := n
+		if n > 1<<20 {
+			want = 1 << 20
+		}
+		if counts[0] != want || counts[1] != want || counts[2] != want {
+			c.Violationf("wide-range/all/passes-differ", "one range of %d codes, the sequence of File.All ranged over three times: %v entries", n, counts)
+		}
+		c.R.Count("wide_ranges_enumerated_three_times", 1)
+		c.Distinct(fmt.Sprint("wide", n))
+	})
 
 	// 7 versions x pretty x writing mode x 0..2 parents = 84 cells; the
 	// first cases walk through the cells, later ones draw them.
